@@ -35,8 +35,10 @@ while (a) the code still imports and runs and (b) the whole existing test suite 
   configuration, a tie / boundary value, a crash or exception at a particular point, or two cooperating sites that each look fine alone.
   NOT something that ordinary use (a simple backtest, a default call) would expose at once. Think about which corners of the property's
   quantifier a reasonable checker might forget, and hide there.
-* The {n} changes must use different mechanisms / code sites from each other; be creative and look beyond the most obvious function.
-* Each change is independent and made against the clean HEAD of the worktree (run `git checkout -- .` between changes).
+* The {n} changes must use different mechanisms / code sites from each other. At least two of them must live OUTSIDE the most obvious function for this property: look at callers, helpers, state/store classes, configuration handling, caching layers, rarely used options and modes, and interactions between features.
+* Each change is independent and made against the clean HEAD of the worktree (run `git checkout -- .` between changes). NEVER use
+  `git stash` (the stash is shared with other worktrees): save a change with `git diff > file`, restore with `patch -p1 < file`.
+* tests/test_state_orders.py draws random order sizes and fails now and then on its own; re-run once before blaming your change.
 
 For each change k = 1..{n} write into {out}/ (create the directory):
 * patch<k>.diff : `git diff` against HEAD (must apply with `patch -p1` at the repository root of a clean checkout);
